@@ -74,11 +74,22 @@ func c06One(c *mon.Ctx, s *rulegen.Spec) {
 	var viaStruct, viaText []byte
 	var errS, errT error
 	var parsed rule.Rule
+	var rebuilt []byte
+	var rebuiltErr error
+	rebuildDiffers := false
 	text := s.Text()
 	p, st := mon.Try(func() {
 		var w rule.WireFormat
-		w, errS = rule.Build(s.Rule())
+		rl := s.Rule()
+		w, errS = rule.Build(rl)
 		viaStruct = w
+		// the same Rule value built again gives the same bytes (Build must not change what it is given)
+		if errS == nil {
+			if w2, err2 := rule.Build(rl); err2 != nil || !bytes.Equal(w, w2) {
+				rebuilt, rebuiltErr = w2, err2
+				rebuildDiffers = true
+			}
+		}
 		if safeForText(s) {
 			parsed, errT = flags.Parse(text)
 			if errT == nil {
@@ -93,6 +104,10 @@ func c06One(c *mon.Ctx, s *rulegen.Spec) {
 	}
 	if errS != nil {
 		c.Violation("valid-rule-rejected:"+firstField(s), fmt.Sprintf("Build rejected a valid request: %v\n  rule: %s", errS, clipStr(text, 400)), s)
+		return
+	}
+	if rebuildDiffers {
+		c.Violation("second-build-differs:"+firstField(s), fmt.Sprintf("building the SAME Rule value a second time gives different wire data (%d bytes, err=%v; first build %d bytes): %s\n  rule: %s", len(rebuilt), rebuiltErr, len(viaStruct), rulegen.Compare(rebuilt, exp), clipStr(text, 400)), s)
 		return
 	}
 	if d := rulegen.Compare(viaStruct, exp); d != "" {
